@@ -20,6 +20,20 @@ fn text3(as_str: &str, display: String, eq_self: bool) -> Result<String, String>
     }
 }
 
+/// `== &str` must be FALSE for every string other than the canonical text (C12): near misses of the text
+fn eq_only_self(t: &str, eq: &dyn Fn(&str) -> bool) -> Option<String> {
+    let mut others: Vec<String> = vec![format!("{}x", t), format!("x{}", t), String::new(), format!("{}-", t), format!(" {}", t)];
+    if !t.is_empty() { others.push(t[..t.len() - 1].to_string()); others.push(t[1..].to_string()); }
+    for o in [t.to_uppercase(), t.to_lowercase()] { others.push(o); }
+    let mut flipped: Vec<u8> = t.as_bytes().to_vec();
+    if let Some(c) = flipped.last_mut() { *c = if *c == b'a' { b'b' } else if c.is_ascii_digit() { if *c == b'0' { b'1' } else { b'0' } } else { b'a' }; }
+    if let Ok(f) = String::from_utf8(flipped) { others.push(f); }
+    for o in others.iter() {
+        if o != t && eq(o) { return Some(format!("INCONSISTENT == {:?} is true for the subtag {:?}", o, t)); }
+    }
+    None
+}
+
 pub fn lang(v: &[u8]) -> String {
     let r = Language::from_bytes(v);
     // FromStr must agree with from_bytes whenever the input is UTF-8
@@ -36,6 +50,7 @@ pub fn lang(v: &[u8]) -> String {
     match r {
         Ok(l) => {
             let t = l.as_str().to_string();
+            if let Some(e) = eq_only_self(&t, &|o| l == o) { return e; }
             match text3(&t, l.to_string(), l == t.as_str()) {
                 Ok(t) => format!("OK {} {}", t, if l.is_empty() { "empty" } else { "full" }),
                 Err(e) => e,
@@ -57,6 +72,7 @@ pub fn script(v: &[u8]) -> String {
             let t = l.as_str().to_string();
             let into: &str = (&l).into();
             if into != t { return "INCONSISTENT into_str".into(); }
+            if let Some(e) = eq_only_self(&t, &|o| l == o) { return e; }
             text3(&t, l.to_string(), l == t.as_str()).map(|t| format!("OK {}", t)).unwrap_or_else(|e| e)
         }
         Err(e) => perr(e),
@@ -75,6 +91,7 @@ pub fn region(v: &[u8]) -> String {
             let t = l.as_str().to_string();
             let into: &str = (&l).into();
             if into != t { return "INCONSISTENT into_str".into(); }
+            if let Some(e) = eq_only_self(&t, &|o| l == o) { return e; }
             text3(&t, l.to_string(), l == t.as_str()).map(|t| format!("OK {}", t)).unwrap_or_else(|e| e)
         }
         Err(e) => perr(e),
@@ -91,6 +108,8 @@ pub fn variant(v: &[u8]) -> String {
     match r {
         Ok(l) => {
             let t = l.as_str().to_string();
+            if let Some(e) = eq_only_self(&t, &|o| l == o) { return e; }
+            if let Some(e) = eq_only_self(&t, &|o| l == *o) { return e; }
             text3(&t, l.to_string(), l == t.as_str() && l == *t.as_str()).map(|t| format!("OK {}", t)).unwrap_or_else(|e| e)
         }
         Err(e) => perr(e),
